@@ -1,8 +1,8 @@
 (* C03 stated from the STRUCTURED side: for every operator and every structured version V the operator admits (and every wildcard form "V.*" ),
    the comparison method of the code model, run on the canonical text of V, computes the PEP 440 semantics [sem]; the real constructor
    accepts that text, stores it, and contains() answers accordingly.
-   Plus the worked examples of PEP 440 ("Version specifiers"), evaluated with [sem] through contains_spec: they pin the declarative
-   semantics to the wording of the PEP rather than to the code. *)
+   Plus a table of examples from PEP 440 "Version specifiers" (14 rows the PEP spells out itself, 72 instances of its rules chosen here),
+   evaluated with [sem] through contains_spec: they pin the declarative semantics to the wording of the PEP rather than to the code. *)
 From Coq Require Import List Arith NArith Bool Lia String.
 Import ListNotations.
 Require Import S1 VParse VComplete VTop VTop2 VDec Py VMeaning VCanon VCmp SpecModel SpecOps SpecOps2 Prefix Prefix4 Compat SpecParse SpecSound SpecContains SpecSem SpecMain SpecCut SpecLink SpecEqual SpecAdmit VWf VKeyEq CanonLaws Show.
@@ -58,7 +58,16 @@ Definition pep (spec item : string) : option bool :=
 Definition row (r : string * string * bool) : bool :=
   let '(s, i, b) := r in match pep s i with Some b' => Bool.eqb b b' | None => false end.
 Open Scope string_scope.
-Definition pep440_table : list (string * string * bool) := [
+(* A. the rows PEP 440 itself spells out ("given the version 1.1.post1 ...", "given the version 1.1a1 ...", ">1.7 will allow 1.7.1 but not
+      1.7.0.post1 and >1.7.post2 will allow 1.7.1 and 1.7.0.post3 but not 1.7.0") *)
+Definition pep440_verbatim : list (string * string * bool) := [
+  ("==1.1", "1.1.post1", false); ("==1.1.post1", "1.1.post1", true); ("==1.1.*", "1.1.post1", true);
+  ("==1.1", "1.1a1", false); ("==1.1a1", "1.1a1", true); ("==1.1.*", "1.1a1", true);
+  ("!=1.1", "1.1.post1", true); ("!=1.1.post1", "1.1.post1", false); ("!=1.1.*", "1.1.post1", false);
+  (">1.7", "1.7.1", true); (">1.7", "1.7.0.post1", false); (">1.7.post2", "1.7.1", true); (">1.7.post2", "1.7.0.post3", true); (">1.7.post2", "1.7.0", false)
+].
+(* B. instances (chosen here, not quoted) of the rules and equivalences the PEP states *)
+Definition pep440_instances : list (string * string * bool) := [
   (* Compatible release: "~= 2.2" is ">= 2.2, == 2.*";  "~= 1.4.5" is ">= 1.4.5, == 1.4.*" *)
   ("~=2.2", "2.2", true); ("~=2.2", "2.3", true); ("~=2.2", "2.9.1", true); ("~=2.2", "3.0", false); ("~=2.2", "2.1", false);
   ("~=1.4.5", "1.4.5", true); ("~=1.4.5", "1.4.9", true); ("~=1.4.5", "1.5.0", false); ("~=1.4.5", "1.4.4", false);
@@ -69,20 +78,17 @@ Definition pep440_table : list (string * string * bool) := [
   (* "~= 2.2.0" is ">= 2.2.0, == 2.2.*";  "~= 1.4.5.0" is ">= 1.4.5.0, == 1.4.5.*": padding the release changes the meaning *)
   ("~=2.2.0", "2.2.5", true); ("~=2.2.0", "2.3", false); ("~=1.4.5.0", "1.4.5.7", true); ("~=1.4.5.0", "1.4.6", false);
   (* Version matching: strict, with zero padding of the release; the candidate's local label is ignored unless the specifier has one *)
-  ("==1.1", "1.1", true); ("==1.1", "1.1.0", true); ("==1.1.0", "1.1", true); ("==1.1", "1.1.post1", false); ("==1.1", "1.1a1", false);
+  ("==1.1", "1.1", true); ("==1.1", "1.1.0", true); ("==1.1.0", "1.1", true);
   ("==1.1", "1.1+local.7", true); ("==1.1+local.7", "1.1", false); ("==1.1+local.7", "1.1+LOCAL_7", true); ("==1.1+local.7", "1.1+local.8", false);
-  (* "given the version 1.1.post1": == 1.1 no, == 1.1.post1 yes, == 1.1.* yes;  "given 1.1a1": == 1.1 no, == 1.1a1 yes, == 1.1.* yes *)
-  ("==1.1.post1", "1.1.post1", true); ("==1.1.*", "1.1.post1", true); ("==1.1a1", "1.1a1", true); ("==1.1.*", "1.1a1", true);
   ("==1.1.*", "1.1.5", true); ("==1.1.*", "1.2", false); ("==1.1.*", "1.10", false); ("==1.1.*", "1.1+abc", true);
   (* the candidate's release is zero-padded as far as the prefix needs; the epoch takes part in the prefix *)
   ("==1.1.0.*", "1.1", true); ("==1.0.0.0.*", "1", true); ("==1.0.0.0.*", "1.0.0.1", false); ("==1!1.*", "1.5", false); ("==1!1.*", "1!1.5", true);
-  (* Version exclusion: the same three clauses negated *)
-  ("!=1.1", "1.1.post1", true); ("!=1.1.post1", "1.1.post1", false); ("!=1.1.*", "1.1.post1", false); ("!=1.1.*", "1.2", true); ("!=1.1", "1.1.0", false);
+  (* Version exclusion *)
+  ("!=1.1.*", "1.2", true); ("!=1.1", "1.1.0", false);
   (* Inclusive ordered comparison: position in the version ordering; local labels of the candidate are ignored *)
   (">=1.0", "1.0", true); (">=1.0", "1.0+local", true); ("<=1.0", "1.0+local", true); ("<=1.0", "1.0.post1", false); (">=1.0", "1.0.dev1", false);
   (">=1.0", "1.0a1", false); (">=1.0", "1.0.post1", true); ("<=1.0", "1.0rc1", true); (">=1!0", "2.0", false); ("<=1!0", "2025.1", true);
-  (* Exclusive ordered comparison: ">1.7 allows 1.7.1 but not 1.7.0.post1; >1.7.post2 allows 1.7.1 and 1.7.0.post3 but not 1.7.0" *)
-  (">1.7", "1.7.1", true); (">1.7", "1.7.0.post1", false); (">1.7.post2", "1.7.1", true); (">1.7.post2", "1.7.0.post3", true); (">1.7.post2", "1.7.0", false);
+  (* Exclusive ordered comparison *)
   (">1.7", "1.8.post1", true); (">1.7", "1.7", false);
   (* ">V MUST NOT match a local version of the specified version" - and only of that version *)
   (">1.7", "1.7+local", false); (">1.7.post2", "1.7.post2+x", false); (">1.7.post2", "1.7.post3+x", true); (">1.7a1", "1.7+x", true);
@@ -93,19 +99,31 @@ Definition pep440_table : list (string * string * bool) := [
   ("===1.0", "1.0", true); ("===1.0", "1.0.0", false); ("===1.0+ABC", "1.0+abc", true); ("===foobar", "1.0", false); ("===1.0a1", "1.0.ALPHA.1", true);
   ("===1.0", "v1.0", true)
 ].
+Definition pep440_table : list (string * string * bool) := List.app pep440_verbatim pep440_instances.
 Close Scope string_scope.
 Definition pep440_table_check : bool := forallb row pep440_table.
 Example pep440_examples : pep440_table_check = true.
 Proof. vm_compute. reflexivity. Qed.
+Example pep440_row_count : (List.length pep440_verbatim, List.length pep440_instances) = (14, 72)%nat.
+Proof. reflexivity. Qed.
 
-(* non-vacuity of the structured theorems: V = 1!2.0.post1 is admitted by every operator but ===; 2.0 by the wildcard form *)
+(* non-vacuity of the structured theorems: V = 1!2.0.post1 is admitted by every operator but ===; 2.0 by the wildcard form.
+   For each: compare_op on str(V) = sem; the constructor stores exactly (operator, str(V)); contains(item, prereleases=True) = Ans (sem ...) *)
+Definition same_spec (sp : specifier) (o : oper) (t : list N) : bool := VMeaning.str_eqb (op_txt (sp_op sp)) (op_txt o) && VMeaning.str_eqb (sp_text sp) t.
 Definition struct_check : bool :=
-  match Version (asc "1!2.0.post1"), Version (asc "2.0"), Version (asc "1!2.0.post2") with
+  let item := asc "1!2.0.post2" in
+  match Version (asc "1!2.0.post1"), Version (asc "2.0"), Version item with
   | Some V, Some P, Some c =>
       forallb (fun o => match compare_op o c (vstr V), sem o (FVer V) c, Specifier (op_txt o ++ vstr V) with
-                        | Some a, Some b, Some _ => Bool.eqb a b | _, _, _ => false end) [OCompat; OEq; ONe; OLe; OGe; OLt; OGt] &&
+                        | Some a, Some b, Some sp =>
+                            Bool.eqb a b && same_spec sp o (vstr V) &&
+                            match contains sp None (Some true) item with Ans x => Bool.eqb x b | _ => false end
+                        | _, _, _ => false end) [OCompat; OEq; ONe; OLe; OGe; OLt; OGt] &&
       forallb (fun o => match compare_op o c (vstr P ++ dotstar), sem o (FWild P) c, Specifier (op_txt o ++ vstr P ++ dotstar) with
-                        | Some a, Some b, Some _ => Bool.eqb a b | _, _, _ => false end) [OEq; ONe]
+                        | Some a, Some b, Some sp =>
+                            Bool.eqb a b && same_spec sp o (vstr P ++ dotstar) &&
+                            match contains sp None (Some true) (asc "2.0.0.5") with Ans x => Bool.eqb x (match o with OEq => true | _ => false end) | _ => false end
+                        | _, _, _ => false end) [OEq; ONe]
   | _, _, _ => false end.
 Example struct_nonvacuous : struct_check = true.
 Proof. vm_compute. reflexivity. Qed.
